@@ -156,6 +156,7 @@ def units(tier, seed=0):
                            enforce='@F{%s}' % layout.RX[key], replace=[], props=props, layer='elementTraits.hpp/parameterTraits.hpp',
                            kind='proof', config='layout: ' + spec, replay='layout'))
     for T, U in conv.PAIRS[tier]:
+        if (T, U) == ('e32', 'u32'): continue   # no implicit conversion from an integer to an enumeration: the element-wise source forms are ill-formed for the user, not a library matter
         cxx = conv.cxx_tu(T, U)
         for form in conv.FORMS:
             loops = form in ('generator',) or not _memcpy_compatible(T, U) or form == 'ptr_aliased'
@@ -225,6 +226,7 @@ def units(tier, seed=0):
                          enforce=('@F{%s}' % vec.RXV[key]) if key else None, replace=['@F{%s}' % vec.REPL[r] for r in repl], props=props, layer='vector.hpp/elementLocator.hpp',
                          kind=extra.get('kind', 'proof'), config='vector: %s, allocator traits F=%d' % (spec, f), replay='history')
                 if extra.get('intonly') and not all(q.elem in 'ux' for q in L.params): continue
+                if name == 'default_constructed' and L.nfixed and L.nvar: continue   # `V v;` leaves the fixed sizes of a mixed list indeterminate; reserve reads them: outside the contract of the library (false alarm corrected, DESIGN 14)
                 if extra.get('bytesonly') and not all(q.kind in 'pc' and q.elem == 'u' and q.size == 1 for q in L.params): continue
                 if extra.get('intonly') and extra.get('lt'):
                     eq_b = all(q.elem == 'u' for q in L.params); lt_b = all(q.elem == 'u' and q.size == 1 for q in L.params) and not L.is_varying()
@@ -253,6 +255,8 @@ def units(tier, seed=0):
                     shapes = VEC_SHAPES2[tier] if not tracked else [(2, 48, 2, 48), (1, 16, 2, 48)]
                 if extra.get('intonly'):
                     shapes = VEC_SHAPES_CMP[tier]
+                if name == 'erase.wf_pair':
+                    shapes = [sh for sh in shapes if sh[0] < 4]   # capacity 4 exceeds the 900 s budget
                 if name == 'erase.wf_elem':
                     # the heaviest unit (up to an hour each): two lists, two shapes
                     if (spec, f) not in (('c4 v4', 0), ('c8a8 v2 p4a8', 3)): continue
@@ -301,7 +305,7 @@ def vec_catalogue(tier):
              ('f4u', [0]), ('c1 c1', [0]), ('c1 c1a2 c1', [0]), ('c1 c4a4', [0]), ('c2 v2u', [0]), ('c4a4 v2u', [0]), ('f4x', [0])]
     if tier == 'quick':
         return quick
-    more = [('c4 v4', [5]), ('f4', [10]), ('p4 p8a8', [0]), ('f3 f5a4 p2a2', [6]), ('c4 v4 c4 v4', [0]), ('c2 v3 c1 v5a4 p1', [0]), ('f4a16 c4 v4a8', [9]), ('c4 v4x', [0])]
+    more = [('c4 v4', [5]), ('f4', [10]), ('p4 p8a8', [0]), ('f3 f5a4 p2a2', [6]), ('f4a16 c4 v4a8', [9]), ('c4 v4x', [0])]
     cat = [(sp, list(fl)) for sp, fl in quick]
     for sp, fl in more:
         hit = [c for c in cat if c[0] == sp]
